@@ -76,6 +76,34 @@ def check_case(ctx, sub, i, ty, T, v, cls_):
     return out
 
 
+def kind_twin(v, rng, depth=0):
+    """v with one or more numbers replaced by an equal number of another kind; None if v holds no such number."""
+    import collections.abc
+    if type(v) is bool:
+        return int(v)
+    if type(v) is int and abs(v) < 2 ** 53:
+        return bool(v) if v in (0, 1) and rng.random() < 0.4 else float(v)
+    if type(v) is float and v == v and abs(v) < 2 ** 53 and v == int(v):
+        return int(v)
+    if depth > 5:
+        return None
+    if isinstance(v, collections.abc.Mapping) and type(v) is dict:
+        for k in list(v):
+            tk = kind_twin(k, rng, depth + 1)
+            if tk is not None and rng.random() < 0.5:
+                return {(tk if kk is k else kk): x for kk, x in v.items()}
+            tx = kind_twin(v[k], rng, depth + 1)
+            if tx is not None:
+                return {**v, k: tx}
+        return None
+    if type(v) in (list, tuple):
+        for j, x in enumerate(v):
+            tx = kind_twin(x, rng, depth + 1)
+            if tx is not None:
+                return type(v)(list(v[:j]) + [tx] + list(v[j + 1:]))
+    return None
+
+
 def gen_case(ctx, rng):
     depth = rng.choice((1, 2, 2, 3)) if ctx.tier == 'quick' else rng.choice((1, 2, 3, 3, 4, 5, 6))
     ty = gentypes.gen_type(rng, depth)
@@ -101,6 +129,14 @@ def run(ctx):
                 out = check_case(ctx, 'main', i, ty, T, v, cls_)
                 if len(deferred) < 400 and rng.random() < 0.3:
                     deferred.append((i, ty, v, out))
+                if out is not None and out.kind == 'value' and rng.random() < 0.5:
+                    # straight after an accepted value, through the SAME type object (and so the same converter): its twin of another
+                    # kind (1 -> 1.0 -> True ...), which compares and hashes equal to it - a per-converter memo keyed by the raw value
+                    # would answer with the earlier result
+                    tw = kind_twin(v, rng)
+                    if tw is not None:
+                        ctx.count('kind_twins_checked')
+                        check_case(ctx, 'main', i, ty, T, tw, 'kind-twin')
         except Exception as e:
             ctx.crash('main', i, e)
     # history independence from the input side: same (T, v) again, other spelling, after everything else ran
